@@ -183,13 +183,19 @@ Qed.
 Lemma final_log_limit_le agent coll p : final_log_limit agent coll p <= coll.
 Proof.
   unfold final_log_limit. cbv zeta.
-  destruct (Z.leb_spec 0 (scale_agent_log agent p)), (Z.ltb_spec (scale_agent_log agent p) coll); cbn; lia.
+  destruct (0 <=? agent), (Z.leb_spec 0 (scale_agent_log agent p)), (Z.ltb_spec (scale_agent_log agent p) coll); cbn; lia.
+Qed.
+
+(* an agent value that is negative as an int (>= 2^63 on the wire) is ignored outright *)
+Lemma final_log_limit_invalid agent coll p : agent < 0 -> final_log_limit agent coll p = coll.
+Proof.
+  intros H. unfold final_log_limit. cbv zeta. destruct (Z.leb_spec 0 agent); [lia|]. reflexivity.
 Qed.
 
 Lemma final_log_limit_nonneg agent coll p : 0 <= coll -> 0 <= final_log_limit agent coll p.
 Proof.
   intros Hc. unfold final_log_limit. cbv zeta.
-  destruct (Z.leb_spec 0 (scale_agent_log agent p)), (Z.ltb_spec (scale_agent_log agent p) coll); cbn; lia.
+  destruct (0 <=? agent), (Z.leb_spec 0 (scale_agent_log agent p)), (Z.ltb_spec (scale_agent_log agent p) coll); cbn; lia.
 Qed.
 
 Lemma default_report_period_val : DefaultReportPeriod = 60000000000.
@@ -202,6 +208,7 @@ Lemma final_log_limit_exact agent coll p :
   final_log_limit agent coll p = Z.min coll (agent * p / 60000000000).
 Proof.
   intros Ha Hp Hc. unfold final_log_limit, scale_agent_log. cbv zeta. rewrite default_report_period_val.
+  destruct (Z.leb_spec 0 agent) as [_|Hneg]; [|lia]. cbn [andb].
   assert (Hap : 0 <= agent * p) by (apply Z.mul_nonneg_nonneg; assumption).
   rewrite Z.quot_div_nonneg by lia.
   set (q := agent * p / 60000000000).
@@ -301,24 +308,27 @@ Theorem event_caps a r e : negotiate a r = Some e ->
        0 <= agent -> 0 <= p ->
        harvest_cap e ELog <= agent * p / 60000000000 /\
        forall j, collector_jval r ELog = Some j ->
-                 harvest_cap e ELog = Z.min (capped 20000 j) (agent * p / 60000000000)).
+                 harvest_cap e ELog = Z.min (capped 20000 j) (agent * p / 60000000000)) /\
+    (k = ELog -> int_of_uint64 (a_log a) < 0 ->
+       forall j, collector_jval r ELog = Some j -> harvest_cap e ELog = capped 20000 j).
 Proof.
   intros H k. destruct (negotiate_inv a r e H) as (e0 & Hp & ->).
   pose proof (parse_inv r e0 Hp) as Hk.
   destruct (Hk k) as [[A1 A2] B]. rewrite daemon_max_doc in *.
   destruct k; try (rewrite process_log_other by discriminate;
-                   split; [split; assumption|]; split; [|discriminate];
+                   split; [split; assumption|]; split; [|split; discriminate];
                    intros j Hj; rewrite (B j Hj); split; [lia|reflexivity]).
   rewrite process_log_log.
   pose proof (final_log_limit_le (int_of_uint64 (a_log a)) (harvest_cap e0 ELog) (ec_period (cfg_of (cfgs e0) ELog))) as Hle.
   pose proof (final_log_limit_nonneg (int_of_uint64 (a_log a)) (harvest_cap e0 ELog) (ec_period (cfg_of (cfgs e0) ELog)) A1) as Hnn.
-  split; [lia|]. split.
+  split; [lia|]. split; [|split].
   - intros j Hj. rewrite <- (B j Hj). split; [exact Hle|]. intros X. contradiction X. reflexivity.
   - intros _. cbv zeta. rewrite process_log_period. intros Ha Hpp.
     assert (Hc : harvest_cap e0 ELog < two63) by (pose proof (doc_max_lt_two63 ELog); lia).
     split.
     + apply final_log_limit_agent_bound; assumption.
     + intros j Hj. rewrite final_log_limit_exact by assumption. rewrite (B j Hj). reflexivity.
+  - intros _ Hneg j Hj. rewrite final_log_limit_invalid by exact Hneg. apply (B j Hj).
 Qed.
 
 (* ---- a well-formed reply (every number a non-negative integer that fits) is accepted ---- *)
@@ -1004,23 +1014,27 @@ Example negotiate_refused_example :
   negotiate (Agent 0 0 0) (ReplyIn (Some (RawEhc JAbsent (JInt (2 ^ 63)) JAbsent JAbsent JAbsent JAbsent)) None) = None.
 Proof. vm_compute. split; reflexivity. Qed.
 
-(* since fix 61ac173 an agent value >= 2^63 (negative as an int) no longer yields a negative capacity ... *)
+(* since fix 61ac173 an agent value >= 2^63 (negative as an int) no longer yields a negative capacity *)
 Example agent_2_63_example :
   option_map (fun e => harvest_cap e ELog)
     (negotiate (Agent 0 (2 ^ 63) 0) (ReplyIn (Some (RawEhc (JInt 60000) JAbsent JAbsent JAbsent JAbsent (JInt 20000))) (Some (RawSehc JAbsent JAbsent))))
   = Some 20000.
 Proof. vm_compute. reflexivity. Qed.
-(* ... but the test `agentLogLimit >= 0` is made AFTER the scaling, whose float-to-int conversion truncates
-   towards zero: an agent value of 2^64-1 .. 2^64-11 (-1 .. -11 as an int) with a 5 s report period scales to
-   -0.08 .. -0.92 -> 0, which passes the test: the log reservoir gets capacity 0 (log events disabled) instead of
-   the collector's 20000.  The bound of C05 holds (0 <= anything); reported as an observation. *)
+(* regression example for fix b82e6ce: the sign of the agent's value is tested BEFORE the scaling.  Agent values
+   2^64-1 .. 2^64-11 (-1 .. -11 as an int) with a 5 s report period scale to -0.08 .. -0.92, which the
+   float-to-int conversion truncates to 0; before the fix that 0 passed the test made after the scaling and the
+   log reservoir got capacity 0.  Now every one of them leaves the collector's limit, for 5 s and for 60 s. *)
 Example agent_minus_one_short_period_example :
-  option_map (fun e => harvest_cap e ELog)
-    (negotiate (Agent 0 (2 ^ 64 - 1) 0) (ReplyIn (Some (RawEhc (JInt 5000) JAbsent JAbsent JAbsent JAbsent (JInt 20000))) (Some (RawSehc JAbsent JAbsent))))
-  = Some 0 /\
-  option_map (fun e => harvest_cap e ELog)
-    (negotiate (Agent 0 (2 ^ 64 - 1) 0) (ReplyIn (Some (RawEhc (JInt 60000) JAbsent JAbsent JAbsent JAbsent (JInt 20000))) (Some (RawSehc JAbsent JAbsent))))
-  = Some 20000.
+  forallb (fun d =>
+    forallb (fun ms =>
+      match negotiate (Agent 0 (2 ^ 64 - d) 0)
+                      (ReplyIn (Some (RawEhc (JInt ms) JAbsent JAbsent JAbsent JAbsent (JInt 20000))) (Some (RawSehc JAbsent JAbsent))) with
+      | Some e => harvest_cap e ELog =? 20000
+      | None => false
+      end) [5000; 60000])
+    [1; 2; 3; 4; 5; 6; 7; 8; 9; 10; 11; 12; 13] = true /\
+  (* the scaled value really is 0 there: it is the validity test that keeps it out *)
+  scale_agent_log (int_of_uint64 (2 ^ 64 - 1)) 5000000000 = 0.
 Proof. vm_compute. split; reflexivity. Qed.
 
 Example counts_example5 :
@@ -1048,11 +1062,15 @@ Theorem event_bound a r e : negotiate a r = Some e ->
        let p := ec_period (cfg_of (cfgs e) ELog) in
        0 <= agent -> 0 <= p ->
        cap <= agent * p / 60000000000 /\
-       forall j, collector_jval r ELog = Some j -> cap = Z.min (capped 20000 j) (agent * p / 60000000000)).
+       forall j, collector_jval r ELog = Some j -> cap = Z.min (capped 20000 j) (agent * p / 60000000000)) /\
+    (k = ELog -> two63 <= a_log a < two64 ->
+       forall j, collector_jval r ELog = Some j -> cap = capped 20000 j).
 Proof.
-  intros H k ops. cbv zeta. destruct (event_caps a r e H k) as [[A1 A2] [B C]].
+  intros H k ops. cbv zeta. destruct (event_caps a r e H k) as [[A1 A2] [B [C D]]].
   split; [exact A1|]. split; [apply reservoir_holds; exact A1|]. split; [exact A2|]. split; [exact B|].
-  intros ->. apply (C eq_refl).
+  split.
+  - intros ->. apply (C eq_refl).
+  - intros -> Hu. apply (D eq_refl). unfold int_of_uint64. rewrite wrap64_big by exact Hu. lia.
 Qed.
 
 (* the usual case spelled out in the collector's units: a log limit z and a report period of ms milliseconds *)
@@ -1070,7 +1088,7 @@ Proof.
   { unfold in_uint64. rewrite two64_val. apply andb_true_intro. split; [apply Z.leb_le|apply Z.ltb_lt]; lia. }
   rewrite Hin in Hd. inversion Hd; subst ms'. rewrite Hl in Hper. rewrite report_period_of_small in Hper by exact Hms.
   assert (Hpe : ec_period (cfg_of (cfgs e) ELog) = ms * 1000000) by (rewrite He, process_log_period; exact Hper).
-  destruct (event_caps a r e H ELog) as [_ [_ C]]. specialize (C eq_refl). cbv zeta in C.
+  destruct (event_caps a r e H ELog) as [_ [_ [C _]]]. specialize (C eq_refl). cbv zeta in C.
   assert (Hag : int_of_uint64 (a_log a) = a_log a) by (apply wrap64_small; lia).
   rewrite Hag, Hpe in C.
   destruct (C Ha0 ltac:(lia)) as [_ C2].
@@ -1131,7 +1149,7 @@ Proof.
   - pose proof (capped_le (doc_max k) j) as Hc.
     assert (Hle : c <= capped (doc_max k) j).
     { destruct k; try (apply Z.eqb_eq in H; lia).
-      destruct (a_log a <? 2 ^ 63); [|apply Z.leb_le in H; exact H].
+      destruct (a_log a <? 2 ^ 63); [|apply Z.eqb_eq in H; lia].
       destruct (spec_log_period_ms r <? 2 ^ 40); [apply Z.eqb_eq in H; lia|apply Z.leb_le in H; exact H]. }
     split; [lia|]. intros j' Hj. inversion Hj; subst j'. exact Hle.
   - apply Z.leb_le in H. split; [exact H|]. intros j Hj. discriminate Hj.
